@@ -321,6 +321,11 @@ def pushAll (e : Enc) (buf : Bytes) : List Comp → Bytes
 /-- `Path::normalize` -/
 def normalize (e : Enc) (b : Bytes) : Bytes := pushAll e [] (normFold [] (comps e b))
 
+/-- `Path::absolutize`, with the current directory (already in this encoding) as a parameter:
+`normalize` for an absolute path, `cwd.join(path).normalize()` otherwise -/
+def absolutize (e : Enc) (cwd p : Bytes) : Bytes :=
+  if isAbsolute e p then normalize e p else normalize e (push e cwd p)
+
 /-- `Path::join` -/
 def join (e : Enc) (a b : Bytes) : Bytes := push e a b
 
